@@ -2,7 +2,7 @@
 From Coq Require Import List NArith Arith Bool.
 Import ListNotations.
 From Chiri Require Import Base.Bytes Base.Res Model.Finders Model.ListRender Spec.ListSpec
-     Proofs.C15Proofs Proofs.ListProofs Proofs.JsonProofs.
+     Proofs.C15Proofs Proofs.ListProofs Proofs.JsonProofs Proofs.ListTabEnd.
 
 (** The (uncoloured) item of a region [a, b) is exactly the specification of Spec/ListSpec.v: a
     `_start` marker line indented by the line-number column (9) plus the tab-expanded width of the
@@ -22,6 +22,27 @@ Theorem C16_item_is_the_specification :
     build_item content a b is_removal false (Some (first, last)) = Ok (expected_item content a b first last).
 Proof. exact build_item_plain. Qed.
 Print Assumptions C16_item_is_the_specification.
+
+(** The same without the last hypothesis: when the last removed character is a tab, it occupies four columns and the
+    `‾end` marker stands under the last of them (three columns right of the tab's first column); otherwise the
+    specification is the one above [expected_item_any_no_tab]. *)
+Theorem C16_item_is_the_specification_any :
+  forall content a b first last is_removal,
+    wf_utf8 content = true -> a < b -> b <= length content ->
+    is_boundary content a = true -> is_boundary content b = true ->
+    (forall i, nth_error content i <> Some CR) ->
+    nth_error content a <> Some NL -> nth_error content (b - 1) <> Some NL ->
+    get_line_range (build_line_map content) (a, b) = Ok (first, last) ->
+    build_item content a b is_removal false (Some (first, last)) = Ok (expected_item_any content a b first last).
+Proof. exact build_item_plain_any. Qed.
+Print Assumptions C16_item_is_the_specification_any.
+
+Theorem C16_specification_any_without_tab :
+  forall content a b first last,
+    nth_error content (b - 1) <> Some TAB ->
+    expected_item_any content a b first last = expected_item content a b first last.
+Proof. exact expected_item_any_no_tab. Qed.
+Print Assumptions C16_specification_any_without_tab.
 
 (** first / last are the 1-based numbers of the lines holding the first and the last character. *)
 Theorem C16_line_numbers :
